@@ -36,7 +36,7 @@ ASSUMPTIONS = [
     "np.random.randint / numpy.random.choice replaced by a fresh symbolic outcome constrained by the call's contract (p[outcome] > 0)",
     "operation order: compile() is exercised on fixed circuits only; that sequence() is a topological order of an arbitrary DAG is C12 (not claimed)",
 ]
-BOUNDS = {"quick": {"stabilizer leg": "n_photon + n_emitter <= 2", "dm leg": "n <= 2", "cross tie": "n <= 2"},
+BOUNDS = {"quick": {"stabilizer leg": "n_photon + n_emitter <= 2 (+ two budgeted three-register placements)", "dm leg": "n <= 2", "cross tie": "n <= 2"},
           "thorough": {"stabilizer leg": "n_photon + n_emitter <= 3", "dm leg": "n <= 3", "cross tie": "n <= 3"}}
 OUTSIDE = "parameterised rotations; circuits as symbolic objects (programs quantifier rests on the induction); noise (C06)"
 
@@ -541,6 +541,14 @@ def plan(tier):
                     jobs.append((StabCompileOne(op=op, n_p=n_p, n_e=n_e, regs=[list(a), list(b)], det=det, c=1), {}))
     jobs.append((RegToIndex(), {}))
     jobs.append((OracleTie(), {}))
+    if q:
+        # budgeted look at three registers (complete in the thorough tier): the placements where photon and emitter
+        # indices differ most
+        for h in (StabCompileOne(op="MeasurementCNOTandReset", n_p=2, n_e=1, regs=[["e", 0], ["p", 1]], det="probabilistic", c=1),
+                  StabCompileOne(op="ClassicalCZ", n_p=1, n_e=2, regs=[["e", 1], ["p", 0]], det=1, c=0)):
+            h.parallel = True
+            h.partial_ok = True
+            jobs.append((h, {"time_budget": 30, "chunk_paths": 4, "chunk_s": 8.0}))
     circuits = ["ghz3_state_circuit", "linear_cluster_3qubit_circuit", "mix1", "mix2", "mix3", "float1", "float2", "float3"] + ([] if q else ["ghz4_state_circuit", "linear_cluster_4qubit_circuit"])
     for cname in circuits:
         for det in (0, 1, "probabilistic"):
